@@ -69,7 +69,7 @@ impl Tf {
     }
 }
 
-/// Functions under test (the self-test substitutes local copies).
+/// Functions under test (indirection kept so that a scratch harness can substitute local copies).
 pub struct PolyFns {
     pub hull: fn(&[PointF]) -> Vec<PointF>,
     pub min_area_rect: fn(&[PointF]) -> Option<RotatedRect>,
